@@ -1,6 +1,6 @@
 (* C03 - DIDs are self-certifying: suffix = hash(suffix data), delta bound by hash. *)
 From Coq Require Import ZArith NArith String List Bool.
-From Sidetree Require Import Base.Sha2 Json.Json Json.Jcs Json.JcsProps Json.JcsRoundTrip Sidetree.Protocol Sidetree.Hashing Sidetree.Parser Sidetree.Binding Sidetree.JequivDecode Sidetree.ValidatorJequiv Sidetree.Respell.
+From Sidetree Require Import Base.Sha2 Json.Json Json.Jcs Json.JcsProps Json.JcsRoundTrip Sidetree.Protocol Sidetree.Hashing Sidetree.Parser Sidetree.Binding Sidetree.JequivDecode Sidetree.ValidatorJequiv Sidetree.Respell Sidetree.RespellNum Json.Parse.
 Import ListNotations.
 Open Scope string_scope.
 
@@ -68,6 +68,27 @@ Theorem C03_same_request_same_did : forall cfg u n o t,
   end.
 Proof. exact same_request_same_did. Qed.
 Print Assumptions C03_same_request_same_did.
+
+(* ... and whatever their number spellings: the parser reads numbers (anchor origin, patch values)
+   through the ES6 normalisation, so two requests whose number-normalised forms differ in member
+   order only - 1 / 1.0 / 1e0, -0 / 0, any member order - get the same verdict, suffix and DID.
+   (norm_members = normalise_numbers on the members of the request object.) *)
+Theorem C03_same_request_same_did_any_number_spelling : forall cfg u n o t,
+  (forall a b, jequiv a b -> o a = o b) ->
+  forall ns b b' m m' mn mn',
+  (Z.of_nat (String.length b) <= P_MaxOperationSize cfg)%Z ->
+  (Z.of_nat (String.length b') <= P_MaxOperationSize cfg)%Z ->
+  top_object b = Some m -> top_object b' = Some m' ->
+  norm_members m = Some mn -> norm_members m' = Some mn' ->
+  jequiv (JObj mn) (JObj mn') -> ndk (JObj mn) -> struct_levels mn ->
+  dec_string (field "type" m) = Some "create" ->
+  match parse cfg u n o t ns b, parse cfg u n o t ns b' with
+  | Some (ty, sfx, id, og), Some (ty', sfx', id', og') => ty = ty' /\ sfx = sfx' /\ id = id' /\ jequiv og og'
+  | None, None => True
+  | _, _ => False
+  end.
+Proof. exact same_request_same_did_spelling. Qed.
+Print Assumptions C03_same_request_same_did_any_number_spelling.
 
 (* the same on decoded requests, batch mode included, with suffix data and delta related *)
 Theorem C03_parse_create_member_order : forall cfg u n o,
